@@ -504,14 +504,18 @@ def _extract_transform(
     except ValueError:
         # This can fail when any dimension is shorter than 2 elements
         # Figure out fallback resolution if possible and try again
-        if crs_coord is None:
-            return None
-        if (original_transform := _extract_geo_transform(crs_coord)) is None:
-            return None
-        fallback_resolution = resolution_from_affine(original_transform)
-        if not gcp and _xx.encoding.get("_transform", None) is not None:
-            # non-axis aligned geobox: coordinates are in pixels, one pixel apart
+        if gcp:
+            # GCP geobox: coordinates are in pixels, one pixel apart
             fallback_resolution = Resolution(1, 1)
+        else:
+            if crs_coord is None:
+                return None
+            if (original_transform := _extract_geo_transform(crs_coord)) is None:
+                return None
+            fallback_resolution = resolution_from_affine(original_transform)
+            if _xx.encoding.get("_transform", None) is not None:
+                # non-axis aligned geobox: coordinates are in pixels, one pixel apart
+                fallback_resolution = Resolution(1, 1)
         try:
             transform = affine_from_axis(_xx.values, _yy.values, fallback_resolution)
         except ValueError:
